@@ -4,6 +4,8 @@ package decoder
 // tables of ISO/IEC 24778 typed here independently of the implementation's tables.
 
 import (
+	"github.com/makiuchi-d/gozxing/aztec/detector"
+	"github.com/makiuchi-d/gozxing/common/reedsolomon"
 	zv "github.com/makiuchi-d/gozxing/zzverif"
 )
 
@@ -177,4 +179,74 @@ func VerifC11Binary(table, n int) {
 	zv.Assert(err == nil, "a conforming binary shift decodes")
 	zv.Assert(got == string(want)+s, "binary shift: bytes and the return to the invoking table")
 	zv.Reach("c11binary")
+}
+
+// verifNoRS stands in for (*reedsolomon.ReedSolomonDecoder).Decode in the un-stuffing tasks: the
+// codewords are taken as received (the Reed-Solomon algebra is C04's subject).
+func verifNoRS(this *reedsolomon.ReedSolomonDecoder, received []int, twoS int) error { return nil }
+
+// VerifC11Unstuff: correctBits on a symbol of the given layer count (codeword size 6, 8, 10, 12 by
+// layers) with pad leading bits, nData free data codewords and nEC parity codewords: all-zero and
+// all-one data codewords are format errors; a codeword 0..01 / 1..10 contributes size-1 equal bits
+// (its last bit is stuffing); every other codeword contributes its bits; the error-correction level
+// is 100 * nEC / (nData + nEC).
+func VerifC11Unstuff(layers, nData, nEC, pad int) {
+	size := 12
+	switch {
+	case layers <= 2:
+		size = 6
+	case layers <= 8:
+		size = 8
+	case layers <= 22:
+		size = 10
+	}
+	mask := 1<<uint(size) - 1
+	var raw []bool
+	for i := 0; i < pad; i++ {
+		raw = append(raw, zv.Bool())
+	}
+	words := make([]int, nData)
+	for i := range words {
+		words[i] = int(zv.Uint16()) & mask
+		for b := size - 1; b >= 0; b-- {
+			raw = append(raw, words[i]>>uint(b)&1 == 1)
+		}
+	}
+	for i := 0; i < nEC*size; i++ {
+		raw = append(raw, zv.Bool())
+	}
+	d := NewDecoder()
+	d.ddata = detector.NewAztecDetectorResult(nil, nil, layers <= 4, nData, layers)
+	res, err := d.correctBits(raw)
+	bad := false
+	for _, w := range words {
+		bad = zv.Or(bad, zv.Or(w == 0, w == mask))
+	}
+	zv.Assert((err != nil) == bad, "an all-zero or all-one data codeword (and nothing else) is a format error")
+	if err != nil {
+		zv.Reach("c11unstuff-err")
+		return
+	}
+	var want []bool
+	for _, w := range words {
+		if w == 1 || w == mask-1 {
+			for j := 0; j < size-1; j++ {
+				want = append(want, w > 1)
+			}
+		} else {
+			for b := size - 1; b >= 0; b-- {
+				want = append(want, w>>uint(b)&1 == 1)
+			}
+		}
+	}
+	zv.Assert(len(res.correctBits) == len(want), "number of bits after un-stuffing")
+	if len(res.correctBits) == len(want) {
+		ok := true
+		for i := range want {
+			ok = zv.And(ok, res.correctBits[i] == want[i])
+		}
+		zv.Assert(ok, "un-stuffed bits")
+	}
+	zv.Assert(res.ecLevel == 100*nEC/(nData+nEC), "error correction level")
+	zv.Reach("c11unstuff")
 }
